@@ -92,7 +92,9 @@ def run_case(case, ctx):
     for n in ns:
         cfg = {"cls": "PeriodicDiskRevolve", "n": n, "ram": ram,
                "costs": costs}
-        res = S.run_stream_case({"cfg": cfg, "passes": 1, "observe": None})
+        res = S.run_stream_case(S.decorate(
+            {"cfg": cfg, "passes": 1, "observe": None, "rseed": n}, n, 0,
+            frac=6))
         r = S.result_of(res, {"cfg": cfg, "passes": 1}, False)
         viols.extend(r["violations"])
         for k, v in r["evals"].items():
